@@ -17,6 +17,7 @@ NOT decided here and NOT claimed (DESIGN.md §5): negligible bias, spread ≤ pu
 -/
 import DSProofs.Lemmas.BoundsExamples
 import DSProofs.Lemmas.BoundsReal
+import DSProofs.Lemmas.BoundsHip
 import DSProofs.Gen.BoundsBits
 namespace DS.Bounds
 set_option linter.unusedSectionVars false
@@ -174,7 +175,7 @@ theorem theta_bounds_order (T : BinomTables) (maxTheta : Nat) (s : ThetaState) (
     state invariant `number of non-zero registers ≤ estimate` (and estimate ≥ 0).  Uses the generated rel-err tables
     (lower-bound entries ≥ 0, upper-bound entries in (−1, 0]) and, above lgK 12, (3·RSE)² < 2¹³.
     PARTIAL: the invariant is a hypothesis here.  It holds for the HIP estimator because every register change adds
-    k/(kxq0+kxq1) ≥ 1 (`hip_ge_nonzero_registers` below, on an abstract register model); for the composite estimator it is
+    k/(kxq0+kxq1) ≥ 1 (`hll_hip_ge_nonzero_registers` below, on an abstract register model); for the composite estimator it is
     only observed by the oracle of `./check C06` on real sketches. -/
 theorem hll_bounds_order_partial (hF : F.OK) (s : HllReg K) (sd : Nat) (e lb ub : K)
     (he : @hllEstimate K (fieldNum F) hllT s = some e) (h0 : 0 ≤ e) (hnz : ((numNonZeros s : Nat) : K) ≤ e)
@@ -189,6 +190,18 @@ example : ∃ lb ub : ℝ,
     (by norm_num) (by norm_num)
   refine ⟨lb, ub, hl, hu, hll_bounds_order_partial realFns realFns_ok _ 2 100 lb ub he (by norm_num) ?_ hl hu⟩
   simp [numNonZeros]; norm_num
+
+/-- The invariant assumed by `hll_bounds_order_partial`, for the HIP estimator: on an ABSTRACT register model of
+    hipAndKxQIncrementalUpdate (k registers, a register change adds k/Σ2^-value to the accumulator before the change) the
+    number of non-zero registers never exceeds the accumulator, for every k and every update sequence.  (This small model
+    is not part of the differential tie of this check -- the HLL update path is C03's -- it documents why the hypothesis is
+    the right one; the same argument gives `coupons ≤ HIP` for CPC, where each new coupon adds k/kxp ≥ 1.) -/
+theorem hll_hip_ge_nonzero_registers (k : Nat) (ups : List (Nat × Nat)) :
+    ((nonZeroCount (hipRun (K := K) (List.replicate k 0, 0) ups).1 : Nat) : K) ≤ (hipRun (K := K) (List.replicate k 0, 0) ups).2 :=
+  hip_ge_nonzero_registers k ups
+
+example : (hipRun (K := ℚ) (List.replicate 4 0, 0) [(0, 3), (1, 1), (0, 5), (7, 2)]).1 = [5, 1, 0, 0] := by
+  simp [hipRun, hipStep, List.replicate]
 
 /-- HLL-mode: lb antitone and ub monotone in the number of standard deviations, for EVERY register state with a
     non-negative estimate (no invariant needed). -/
@@ -218,23 +231,33 @@ theorem hll_coupon_bounds_order (count sd : Nat) (e lb ub : K)
     (count : K) ≤ lb ∧ lb ≤ e ∧ e ≤ ub :=
   coupon_order F count sd e lb ub he hl hu
 
+/-- LIST / SET mode: lb antitone, ub monotone in the number of standard deviations -/
+theorem hll_coupon_bounds_mono_kappa (count sd : Nat) (hsd : sd < 3) (lb ub lb' ub' : K)
+    (hl : @couponLowerBound K (fieldNum F) hllT count sd = some lb) (hu : @couponUpperBound K (fieldNum F) hllT count sd = some ub)
+    (hl' : @couponLowerBound K (fieldNum F) hllT count (sd + 1) = some lb')
+    (hu' : @couponUpperBound K (fieldNum F) hllT count (sd + 1) = some ub') :
+    lb' ≤ lb ∧ ub ≤ ub' :=
+  coupon_mono F count sd hsd lb ub lb' ub' hl hu hl' hu'
+
 /-! ## CPC -/
 
-/-- compute_icon_estimate returns at least the coupon count, and exactly the count for 0 or 1 coupons.
-    PARTIAL: polynomial branch and C < 2 only (the clamp `result >= C ? result : C`); in the exponential branch
-    (C > 5.6k / 5.7k) `C ≤ 0.794·k·2^(C/k)` is true of the real power function but `pow` is abstract here. -/
-theorem cpc_icon_ge_coupons_partial (T : CpcTables) (lgK c : Nat) (e : K) (h : @iconEstimate K (fieldNum F) T lgK c = some e)
-    (hpoly : c < 2 ∨ ¬ ((c : K) > (if lgK < 14 then litK c5_7 else litK c5_6) * ((2 ^ lgK : Nat) : K))) :
+/-- compute_icon_estimate returns at least the coupon count for EVERY lg_k and coupon count, and exactly the count for
+    0 or 1 coupons (documented small-range behaviour): polynomial branch by the clamp `result >= C ? result : C`,
+    exponential branch (C > 5.6k / 5.7k) from `r ≤ 0.7940236163830469·2^r` for r ≥ 5 (`F.ExpOK`, true of the real power
+    function: `realFns_expOK`).  With `cpc_bounds_order_partial` this discharges its hypothesis for merged sketches. -/
+theorem cpc_icon_ge_coupons (hexp : F.ExpOK) (T : CpcTables) (lgK c : Nat) (e : K) (h : @iconEstimate K (fieldNum F) T lgK c = some e) :
     (c : K) ≤ e ∧ (c < 2 → e = c) :=
-  iconEstimate_ge F T lgK c e h hpoly
+  iconEstimate_ge_all F hexp T lgK c e h
 
+example : realFns.ExpOK := realFns_expOK
 example : @iconEstimate ℝ (fieldNum realFns) cpcT 10 1 = some 1 := by
   unfold iconEstimate; simp [cpcT, DSGen.Bounds.iconMinLgK, DSGen.Bounds.iconMaxLgK, litK, c1]
 
 /-- CPC (HIP estimator when not merged, ICON after a merge): lb ≤ estimate ≤ ub for every lg_k ≥ 4 and κ ∈ 1..3, GIVEN the
     state invariant `coupons ≤ estimate`, estimate ≥ 0, and estimate = 0 for the empty sketch.  Uses the generated
     confidence tables: κ·x_κ/√k ∈ [0,1).
-    PARTIAL: the invariant is a hypothesis (ICON: `cpc_icon_ge_coupons_partial`; HIP: each new coupon adds k/kxp ≥ 1). -/
+    PARTIAL: the invariant is a hypothesis (ICON: discharged by `cpc_icon_ge_coupons`; HIP: each new coupon adds k/kxp ≥ 1,
+    same argument as `hll_hip_ge_nonzero_registers`, not modelled here). -/
 theorem cpc_bounds_order_partial (hF : F.OK) (s : CpcState K) (k : Nat) (e lb ub : K)
     (he : @cpcEstimate K (fieldNum F) cpcT s = some e) (h0 : 0 ≤ e) (hc : (s.numCoupons : K) ≤ e) (hz : s.numCoupons = 0 → e = 0)
     (hl : @cpcLowerBound K (fieldNum F) cpcT s k = some lb) (hu : @cpcUpperBound K (fieldNum F) cpcT s k = some ub) :
